@@ -63,7 +63,9 @@ func VerifC20Policy() {
 	policy := []string{"replace", "ignore", "error"}[verifChoose("policy", 3)]
 	preexist := verifChoose("preexist", 2) == 1
 	preTTL := preexist && verifChoose("prettl", 2) == 1
-	path := verifChoose("path", 3) // 0 = RESTORE, 1 = expansion (one entry), 2 = expansion in two chunks
+	// 0 = RESTORE, 1 = expansion (one entry), 2 = expansion in two chunks, 3 = RESTORE refused by a
+	// target that cannot load the payload ("Bad data format"), followed by the fallback expansion
+	path := verifChoose("path", 4)
 	hasExpire := verifChoose("expire", 2) == 1
 	var expireAt uint64
 	if hasExpire {
@@ -81,7 +83,8 @@ func VerifC20Policy() {
 	}
 	nPre := len(f.log)
 
-	rr := &RdbReplay{Client: f, RedisVersion: "7.0", EnableRestore: path == 0, MaxProtoBulkLen: 1 << 20, KeyExists: policy}
+	f.badDump = path == 3
+	rr := &RdbReplay{Client: f, RedisVersion: "7.0", EnableRestore: path == 0 || path == 3, MaxProtoBulkLen: 1 << 20, KeyExists: policy}
 	mkEntry := func(first, split bool, cmds [][]string) *rdb.BinEntry {
 		p := &verifParser{key: []byte(key), canRestore: true, split: split, first: first, dumpSize: 20, cmds: cmds, dump: []byte("DUMP")}
 		return &rdb.BinEntry{DB: 0, Key: []byte(key), Type: rdb.RdbTypeList, ExpireAt: expireAt, ObjectParser: p}
@@ -92,7 +95,7 @@ func VerifC20Policy() {
 	case 0:
 		err = rr.Replay(mkEntry(true, false, [][]string{{"rpush", "a"}, {"rpush", "b"}}))
 		wantOps = []string{"restore DUMP"}
-	case 1:
+	case 1, 3:
 		err = rr.Replay(mkEntry(true, false, [][]string{{"rpush", "a"}, {"rpush", "b"}}))
 		wantOps = []string{"rpush a", "rpush b"}
 	default:
@@ -104,7 +107,7 @@ func VerifC20Policy() {
 	}
 	verifObserve("err", verifB2I(err != nil))
 	o := f.st.obj(0, key, false)
-	cls := policy + "/" + []string{"restore", "expand", "chunked"}[path]
+	cls := policy + "/" + []string{"restore", "expand", "chunked", "restore-fallback"}[path]
 
 	// did any request after the preparation modify the key?
 	touched := false
@@ -119,7 +122,7 @@ func VerifC20Policy() {
 					rep = true
 				}
 			}
-			if rep || !preexist {
+			if (rep || !preexist) && !f.badDump {
 				touched = true
 			}
 		default:
